@@ -152,12 +152,12 @@ var (
 
 // Schema says which secondary indexes a table has.
 type Schema struct {
-	Name               string
-	Tags, U, Pfx, LPM  bool
-	IDAlphabet         []byte
-	IDMaxLen           int
-	UintIDs            bool // primary keys are big-endian uint64 of small integers
-	Wide               bool // wide fan-out: ids are [a|b] + one of 64 letters (or nothing); transactions have grow/shrink phases
+	Name              string
+	Tags, U, Pfx, LPM bool
+	IDAlphabet        []byte
+	IDMaxLen          int
+	UintIDs           bool // primary keys are big-endian uint64 of small integers
+	Wide              bool // wide fan-out: ids are [a|b] + one of 64 letters (or nothing); transactions have grow/shrink phases
 }
 
 var Schemas = []Schema{
